@@ -61,6 +61,11 @@ PATHS = [
     ("/flink", "symfile-in"), ("/dangling", "dangling"), ("/sub", "directory"), ("/", "root"),
     ("/../uploads-evil/x.txt", "sibling"), ("/a.txt/x", "file-as-dir"), ("/%2e%2e/outside/e.txt", "encoded"),
     ("/..", "dotdot"), ("/sub/", "directory"),
+    # a sibling with the same stem and another suffix exists (sub/b.tmp), and a *.tmp target
+    ("/sub/b.txt", "plain-existing"), ("/data.tmp", "plain-existing"), ("/report.gmi", "plain"),
+    # decomposed (NFD) spelling of a name that exists in exactly that spelling
+    ("/cafe\u0301.txt", "plain-existing"), ("/nfd\u0308dir/new.txt", "plain"),
+    ("/caf\u00e9.txt", "plain"),
 ]
 
 
@@ -77,6 +82,11 @@ def build_tree(root):
     w("uploads/sub/b.txt", b"ORIGINAL B\n")
     w("uploads/sub/c.txt", b"ORIGINAL C\n")
     w("outside/secret.txt", b"OUTSIDE SECRET\n")
+    w("uploads/sub/b.tmp", b"SIBLING WITH TMP SUFFIX\n")
+    w("uploads/data.tmp", b"A TARGET NAMED *.tmp\n" * 10)
+    w("uploads/report.tmp", b"UNRELATED report.tmp\n")
+    w("uploads/cafe\u0301.txt", b"NFD NAMED FILE\n")
+    os.makedirs(os.path.join(U, "nfd\u0308dir"))
     w("uploads-evil/x.txt", b"SIBLING\n")
     os.symlink("sub", os.path.join(U, "link_in"))
     os.symlink("a.txt", os.path.join(U, "flink"))
